@@ -114,7 +114,7 @@ fn manifest_jsonml(v: &JSONMLValue, buf: &mut String, opts: &XmlJsonmlFormat) ->
 				} else {
 					ToStringFormat.manifest(value)?
 				};
-				escape_string_xml_buf(&value, buf);
+				escape_xml_whitespace_buf(&escape_string_xml(&value), true, buf);
 				buf.push('"');
 			}
 			if !has_children && !opts.force_closing {
@@ -133,8 +133,21 @@ fn manifest_jsonml(v: &JSONMLValue, buf: &mut String, opts: &XmlJsonmlFormat) ->
 			Ok(())
 		}
 		JSONMLValue::String(s) => {
-			escape_string_xml_buf(s, buf);
+			escape_xml_whitespace_buf(&escape_string_xml(s), false, buf);
 			Ok(())
+		}
+	}
+}
+
+/// A reader normalizes tab and line breaks inside attribute values to spaces, and CR
+/// everywhere to LF, unless they are written as character references
+fn escape_xml_whitespace_buf(escaped: &str, attribute: bool, out: &mut String) {
+	for c in escaped.chars() {
+		match c {
+			'\r' => out.push_str("&#13;"),
+			'\n' if attribute => out.push_str("&#10;"),
+			'\t' if attribute => out.push_str("&#9;"),
+			c => out.push(c),
 		}
 	}
 }
